@@ -324,6 +324,17 @@ def compare(interp, op, a, b):
         if isinstance(op, ast.NotIn):
             return z3.Not(r) if is_sym(r) else (not r)
         return r
+    if isinstance(a, _SymList) and isinstance(b, _SymList) and isinstance(op, (ast.Eq, ast.NotEq)):
+        # list equality: same length and equal elements position by position
+        la, lb = to_z3(a.length), to_z3(b.length)
+        if getattr(a, "sorted_nodes_of", None) is not None and getattr(b, "sorted_nodes_of", None) is not None:
+            r = la == lb  # both are the sorted label lists [0..n-1] of abstract graphs
+        else:
+            kq = z3.Int(f"leq!{interp.path.counter.get('leq', 0)}")
+            interp.path.counter["leq"] = interp.path.counter.get("leq", 0) + 1
+            r = z3.And(la == lb, z3.ForAll([kq], z3.Implies(z3.And(kq >= 0, kq < la), as_int_term(a.get(kq)) == as_int_term(b.get(kq)))))
+        used("== / != of two lists of symbolic length (length and elementwise)")
+        return z3.Not(r) if isinstance(op, ast.NotEq) else r
     if isinstance(a, NDArr) or isinstance(b, NDArr):
         shape, wa, wb = _bshape(interp, a, b)
         ra = wa(a.reader()) if isinstance(a, NDArr) else (lambda *i: a)
@@ -1258,6 +1269,13 @@ def python_builtin(interp, name):
         return list(zip(*[i.iterate(x) for x in xs]))
 
     def b_sorted(i, x, key=None, reverse=False):
+        if isinstance(x, _SymList) and getattr(x, "increasing", False) and key is None and not reverse:
+            used("sorted() of a list known to be strictly increasing = an equal new list")
+            r = x.copy()
+            for a_ in ("increasing", "sorted_nodes_of"):
+                if hasattr(x, a_):
+                    setattr(r, a_, getattr(x, a_))
+            return r
         vals = i.iterate(x)
         if key is not None:
             keys = [i.call(key, [v], {}) for v in vals]
